@@ -12,7 +12,8 @@
 \* Outside the model (exploration stops, `illf`): texts FScan calls ill-formed (unterminated literal,
 \*   literal continued without leading &, line that holds nothing but continuation markers, sentinel
 \*   inside a continued statement); `#` anywhere but as the first non-blank character of a line; quotes
-\*   inside directive lines and backslashes outside directives (the C cleaner's business: MC_CLex).
+\*   inside directives that span several lines and backslashes outside directives (the C cleaner's business:
+\*   MC_CLex); a quote on a one-line directive is ordinary.
 EXTENDS Naturals, Sequences, TLC
 
 Classes == {"L", "O", "S", "!", "&", "Q", "q", "$", "#"}
@@ -117,7 +118,8 @@ RFeed(c) ==
           ELSE LET b == RBody([text |-> FALSE, amp |-> FALSE, lq |-> rq, pend |-> FALSE, ph |-> "body"], c) IN
                [keep EXCEPT !.ph = b.ph, !.text = b.text, !.amp = b.amp, !.lq = b.lq, !.pend = b.pend,
                             !.bad = (rq # "")])                                          \* continued literal needs the &
-    [] rph = "dir" -> [keep EXCEPT !.dany = (rdany \/ c # "S"), !.ill = c \in {"Q", "q", "#"}]
+    [] rph = "dir" -> [keep EXCEPT !.dany = (rdany \/ c # "S"), !.ill = (c = "#" \/ (rdcont /\ c \in {"Q", "q"})),
+                                   !.pend = (rpend \/ c \in {"Q", "q"})]        \* pend: a quote was seen on this directive line
     [] rph = "bang" -> (IF c = "$" THEN [keep EXCEPT !.ph = "sent"] ELSE IF c = "L" THEN keep ELSE [keep EXCEPT !.ph = "cmt"])
     [] rph \in {"cmt", "sent", "bcmt"} -> keep
     [] rph = "body" -> (IF c = "#" THEN [keep EXCEPT !.ill = TRUE]
@@ -168,7 +170,7 @@ EndLine(spliced) ==
       cbiCount == IF cdir THEN ~Blank(cform) ELSE fform = "N"
   IN
   /\ Live
-  /\ spliced => (cdir /\ indirRef)
+  /\ spliced => (cdir /\ indirRef /\ ~(rph = "dir" /\ rpend))
   /\ illf' = refIll
   /\ mism' = IF refIll THEN "ok"
              ELSE IF cdir # indirRef THEN "directive-extent"
